@@ -341,6 +341,8 @@ def check_update_gating(res, E):
 
 
 def run(res, tier):
+    global N
+    N = 4 if tier == "quick" else 6
     E = mprop.engine(res)
     res.extra.setdefault("source_files_sha256", {}).update(mprop.source_hashes(
         ["src/collector/rrdp/base.rs", "src/collector/rrdp/update.rs", "src/collector/rrdp/archive.rs"]))
